@@ -35,6 +35,13 @@ impl<'a, T: 'a> VxIterRef<'a> for Vec<T> {
     #[verifier::external_body]
     fn vx_iter(&'a self) -> (r: VxIter<&'a T>) { unimplemented!() }
 }
+/// `(&v).into_iter()` (what `for x in &v` runs): references to the elements, in order
+impl<'a, T> VxIntoIter for &'a Vec<T> {
+    type Item = &'a T;
+    open spec fn vx_items_ok(self, items: Seq<&'a T>) -> bool { items.len() == self@.len() && forall|i: int| 0 <= i < items.len() ==> *(#[trigger] items[i]) == self@[i] }
+    #[verifier::external_body]
+    fn vx_into_iter(self) -> (r: VxIter<&'a T>) { unimplemented!() }
+}
 /// `FromIterator`: start empty, take the items one by one
 pub trait VxCollect: Sized {
     type Item;
